@@ -57,12 +57,13 @@ def params(uni, mode="stable", P=1, W=1, seed=0):
 def mc_jobs(quick):
   jobs = [("Forest: lone switch, P=2 W=3, port add/del/down/up, reboots (async channel)", "MC_lone.cfg"),
           ("Forest: one cable, P=1 W=1, reboots (async channel)", "MC_one.cfg"),
-          ("Forest: one cable, port events on the cable port and a host port (eager channel)", "MC_onep.cfg"),
+          ("Forest: one cable, port events on a cable port (eager channel)", "MC_onep1.cfg"),
           ("Forest: two parallel cables + refused links (eager channel)", "MC_pair.cfg"),
           ("Forest: one cable, Strict (cache forgotten on ConnectionUp): told = has without exemption",
            "MC_one_strict.cfg")]
   if not quick:
-    jobs += [("Forest: triangle, stable (eager channel)", "MC_tri.cfg"),
+    jobs += [("Forest: one cable, port events on the cable port and a host port (eager channel)", "MC_onep.cfg"),
+             ("Forest: triangle, stable (eager channel)", "MC_tri.cfg"),
              ("Forest: triangle, randomized / nx: every spanning forest (eager channel)", "MC_tri_rand.cfg"),
              ("Forest: two parallel cables, unstable (eager channel)", "MC_pair_unstable.cfg"),
              ("Forest: one cable, P=2 W=3 (async channel)", "MC_one_p2w3.cfg")]
@@ -241,8 +242,9 @@ TRACE_GROUPS_THOROUGH = [("pair", "stable", 1, 1, "Trace_pair_stable.cfg", 1200,
                          ("sq", "randomized", 4, 5, "Trace_sq_randomized.cfg", 600, 220)]
 
 
-def validate_group(ctx, grp, traces, items):
-  uni, mode, P, W, cfg, _, _ = grp
+def validate_tlc(grp, traces):
+  """TLC decides (thread-safe: touches no check state)"""
+  cfg = grp[4]
   controls = []
   for how in ("flip", "drop", "tree"):
     for t in traces:
@@ -257,8 +259,13 @@ def validate_group(ctx, grp, traces, items):
   for j, (how, _) in enumerate(controls):
     if len(traces) + j not in rejected:
       raise tlc.TLCError("negative control '%s' was accepted by the trace specification (%s)" % (how, cfg))
+  return r, rej, len(controls)
+
+
+def account(ctx, grp, traces, items, r, rej, ncontrols):
+  uni, mode, P, W, cfg, _, _ = grp
   bad = 0
-  for t, matched in rej:
+  for t, matched in sorted(rej):
     if t >= len(traces):
       continue
     bad += 1
@@ -278,29 +285,44 @@ def validate_group(ctx, grp, traces, items):
   ctx.add_model("TraceForest %s (%d implementation histories, %d events)" %
                 (cfg, len(traces), sum(len(t) for t in traces)), r)
   return dict(histories=len(traces), events=sum(len(t) for t in traces), rejected=bad,
-              negative_controls_rejected=len(controls),
-              quiet_states=sum(1 for t in traces for e in t if e["a"] == "Advance"))
+              negative_controls_rejected=ncontrols,
+              batches=sum(len(e["obs"]["sent"]) for t in traces for e in t))
+
+
+def validate_group(ctx, grp, traces, items):
+  r, rej, nc = validate_tlc(grp, traces)
+  return account(ctx, grp, traces, items, r, rej, nc)
 
 
 # ---------------------------------------------------------------------------- the check
-def export_edges(ctx, cfg, par, label):
-  r = tlc.run(SPEC, "MCForest", cfg, workers=1, coverage=False, tag="X10", timeout=1500)
-  behs = [norm(b) for b in r.tagged("T")]
-  if not behs:
-    raise tlc.TLCError("no behaviours exported by %s" % cfg)
-  st = core.replay(ctx, ADAPTER, behs, params=par, chunk=100)
-  ctx.notes["replay_" + label] = dict(behaviours=len(behs), **st)
-  return behs
+def pick(behs, keep, seed):
+  """a deterministic sample (by content hash) of exported behaviours: 1 in `keep`"""
+  if keep <= 1:
+    return behs
+  return [b for b in behs if (int(core.fp(b), 16) + seed) % keep == 0]
 
 
-def export_sim(ctx, cfg, par, label, num, depth):
-  r = tlc.run(SPEC, "MCForest", cfg, workers=1, coverage=False, simulate=dict(num=num), depth=depth + 1,
-              seed=ctx.seed + 1, tag="X10", timeout=1500)
-  behs = [norm(b) for b in r.tagged("H")]
-  if len(behs) < num // 2:
-    raise tlc.TLCError("simulation %s exported %d behaviours" % (cfg, len(behs)))
-  st = core.replay(ctx, ADAPTER, behs, params=par, chunk=10)
-  ctx.notes["replay_" + label] = dict(behaviours=len(behs), depth=depth, **st)
+def witnesses(behs, what):
+  """vacuity guard on the exports: the branches of the actions that matter must occur among the exported steps"""
+  seen = set()
+  for b in behs:
+    for st in b:
+      e = st["exp"]
+      if e.get("sent"):
+        seen.add(st["a"] + "+batch")
+      if e.get("err"):
+        seen.add(st["a"] + "+" + e["err"])
+      if st["a"] == "ConnUp" and not e.get("sent"):
+        seen.add("ConnUp-nobatch")
+      if st["a"] == "ConnUp" and st["args"]["fresh"]:
+        seen.add("ConnUp-fresh")
+      if st["a"] == "LinkEv" and not st["args"]["add"] and e.get("sent"):
+        seen.add("LinkEv-timeout+batch")
+      if len(e.get("tree", [])) > 0:
+        seen.add("tree")
+  missing = [w for w in what if w not in seen]
+  if missing:
+    raise tlc.TLCError("vacuous export: no exported step shows %s" % missing)
 
 
 def run(ctx):
@@ -311,6 +333,7 @@ def run(ctx):
 
   def lap(name):
     ctx.notes["phase_s"][name] = round(time.time() - t0, 1)
+
   ctx.rule = ("behaviours exported by TLC from Forest.tla (every transition of small universes; -simulate runs of "
               "larger ones) replayed on the real spanning_forest component over real SoftwareSwitches / of_01 "
               "connections, comparing the port_mod batches written, the component's tree, handler exceptions, the "
@@ -326,29 +349,60 @@ def run(ctx):
       "nx mode is not run (networkx is not installed); randomized mode is validated against 'any spanning forest'"]
   started = model_check_start(quick)
   s = ctx.seed
-  # spec -> code: every transition
-  export_edges(ctx, "EX_lone.cfg", params("lone", P=2, W=3, seed=s), "edges_lone")
-  lap("edges_lone")
-  export_edges(ctx, "EX_onee.cfg", params("one", seed=s + 5), "edges_one_eager")
-  lap("edges_one_eager")
+  # ---- TLC exports (all JVMs at once, before this process forks its workers)
+  edges = [("EX_lone.cfg", params("lone", P=2, W=3, seed=s), "edges_lone", 4 if quick else 1),
+           ("EX_onee.cfg", params("one", seed=s + 5), "edges_one_eager", 6 if quick else 1)]
   if not quick:
-    export_edges(ctx, "EX_one.cfg", params("one", seed=s + 2), "edges_one_async")
-    export_edges(ctx, "EX_pair.cfg", params("pair", seed=s + 3), "edges_pair")
-  # spec -> code: random deep behaviours
-  sims = [("EX_sim_pair.cfg", params("pair", "stable", 1, 1, s + 1), "sim_pair", 60, 1500, 50),
-          ("EX_sim_tri.cfg", params("tri", "unstable", 2, 3, s + 2), "sim_tri_unstable", 60, 1500, 60),
-          ("EX_sim_sq.cfg", params("sq", "stable", 4, 5, s + 3), "sim_sq", 60, 1500, 80)]
-  for cfg, par, label, nq, nt, depth in sims:
-    export_sim(ctx, cfg, par, label, nq if quick else nt, depth)
+    edges += [("EX_one.cfg", params("one", seed=s + 2), "edges_one_async", 1),
+              ("EX_pair.cfg", params("pair", seed=s + 3), "edges_pair", 1)]
+  sims = [("EX_sim_pair.cfg", params("pair", "stable", 1, 1, s + 1), "sim_pair", 60 if quick else 1500, 50),
+          ("EX_sim_tri.cfg", params("tri", "unstable", 2, 3, s + 2), "sim_tri_unstable", 60 if quick else 1500, 60)]
+  if not quick:
+    sims.append(("EX_sim_sq.cfg", params("sq", "stable", 4, 5, s + 3), "sim_sq", 1000, 80))
+  jobs = [dict(spec_dir=SPEC, module="MCForest", cfg=cfg, workers=1, coverage=False, tag="X10", timeout=1500)
+          for cfg, _, _, _ in edges]
+  jobs += [dict(spec_dir=SPEC, module="MCForest", cfg=cfg, workers=1, coverage=False, simulate=dict(num=num),
+                depth=depth + 1, seed=ctx.seed + 1, tag="X10", timeout=1500) for cfg, _, _, num, depth in sims]
+  res = tlc.run_many(jobs, parallel=4)
+  lap("exports")
+  allb = []
+  # ---- spec -> code: every transition of the small universes (quick: a deterministic sample of them)
+  for (cfg, par, label, keep), r in zip(edges, res):
+    behs = [norm(b) for b in r.tagged("T")]
+    if not behs:
+      raise tlc.TLCError("no behaviours exported by %s" % cfg)
+    allb += behs
+    sel = pick(behs, keep, s)
+    st = core.replay(ctx, ADAPTER, sel, params=par, chunk=100)
+    ctx.notes["replay_" + label] = dict(exported=len(behs), behaviours=len(sel), **st)
     lap(label)
-  # code -> spec
-  for grp in (TRACE_GROUPS_QUICK if quick else TRACE_GROUPS_THOROUGH):
-    uni, mode, P, W, cfg, ntr, nsteps = grp
-    items = [(s * 100003 + i, uni, mode, P, W, nsteps) for i in range(ntr)]
-    traces = core.run_driver("props.X10:drive", items)
-    lap("drive_" + cfg[6:-4])
-    ctx.notes["trace_" + cfg[6:-4]] = validate_group(ctx, grp, traces, items)
-    lap("validate_" + cfg[6:-4])
+  # ---- spec -> code: random deep behaviours
+  for (cfg, par, label, num, depth), r in zip(sims, res[len(edges):]):
+    behs = [norm(b) for b in r.tagged("H")]
+    if len(behs) < num // 2:
+      raise tlc.TLCError("simulation %s exported %d behaviours" % (cfg, len(behs)))
+    allb += behs
+    st = core.replay(ctx, ADAPTER, behs, params=par, chunk=10)
+    ctx.notes["replay_" + label] = dict(behaviours=len(behs), depth=depth, **st)
+    lap(label)
+  witnesses(allb, ["ConnUp+batch", "ConnDown+batch", "LinkEv+batch", "LinkEv-timeout+batch", "PortEv+batch",
+                   "Tick+batch", "LinkEv+RuntimeError", "LinkEv+AssertionError", "ConnUp-nobatch", "ConnUp-fresh",
+                   "tree"])
+  # ---- code -> spec
+  groups = TRACE_GROUPS_QUICK if quick else TRACE_GROUPS_THOROUGH
+  items = []
+  for uni, mode, P, W, cfg, ntr, nsteps in groups:
+    items += [(s * 100003 + i, uni, mode, P, W, nsteps) for i in range(ntr)]
+  traces = core.run_driver("props.X10:drive", items)
+  lap("drive")
+  def sel(grp):
+    return [i for i, it in enumerate(items) if (it[1], it[2]) == (grp[0], grp[1])]
+  with concurrent.futures.ThreadPoolExecutor(max_workers=4) as ex:
+    outs = list(ex.map(lambda g: validate_tlc(g, [traces[i] for i in sel(g)]), groups))
+  for grp, (r, rej, nc) in zip(groups, outs):
+    ix = sel(grp)
+    ctx.notes["trace_" + grp[4][6:-4]] = account(ctx, grp, [traces[i] for i in ix], [items[i] for i in ix], r, rej, nc)
+  lap("validate")
   model_check_finish(ctx, started)
   lap("model_checking_done")
   ctx.exhaustive = True
